@@ -338,8 +338,10 @@ def powWrap : Nat → Int → Nat → Int → Int
     if e = 0 then acc
     else powWrap fuel (wrap64 (base * base)) (e / 2) (if e % 2 = 1 then wrap64 (acc * base) else acc)
 
-/-- `KNumber::pow` on two integers with `b >= 0`: `a.wrapping_pow(b as u32)` — never panics -/
-def powInt (a b : Int) : Res Int := .ok (powWrap 33 a (b % 4294967296).toNat 1)
+/-- `KNumber::pow` on two integers with `b >= 0` (since 1b7bdc2): square-and-multiply with
+`wrapping_mul` over the full 64-bit exponent (before: `a.wrapping_pow(b as u32)`, which truncated
+exponents `>= 2^32`) — never panics -/
+def powInt (a b : Int) : Res Int := .ok (powWrap 64 a b.toNat 1)
 
 /-- `number.shift_left`: guard `b >= 0` (as i64), then `a << b` (panics when `b >= 64`) -/
 def shiftLeft (a : Int) (b : NumView) : Res Int :=
